@@ -241,6 +241,36 @@ func checkC02(ck *Check) {
 				}
 			}
 		}
+		if found == nil {
+			// the test asked through a helper of the scan body (`requested, pending := g.pendingScaleUp(…)`):
+			// its boolean result is read through its returns — what it logs on the way does not matter
+			// for which test was evaluated
+			pc2 := pc.Subst(func(at *Term) *Formula {
+				if at.Kind != "extract" || len(at.Args) != 1 || at.Args[0].Kind != "call" {
+					return nil
+				}
+				ct := at.Args[0]
+				h := ct.Fn
+				if h == nil || !ck.P.inRepo(h) || h.Blocks == nil || len(h.Blocks) > 12 || infoOf(h).hasLoop || h == a.Locked {
+					return nil
+				}
+				idx := 0
+				fmt.Sscan(at.Name, &idx)
+				if idx >= h.Signature.Results().Len() || !isBool(h.Signature.Results().At(idx).Type()) {
+					return nil
+				}
+				ch := ac.Ctx.childTerm(ct)
+				ch.depth = 0
+				return ch.returnFormula(idx)
+			})
+			for _, at := range pc2.Atoms() {
+				if ck.isLockedCall(at, g) {
+					if okv, _, _ := Entails(pc2, Not(Atom(at))); okv {
+						found = at
+					}
+				}
+			}
+		}
 		ck.cond(found != nil, "C02.R1", key, ck.P.instrPos(ci), funcID(a.Scan), "PC ⇒ ¬locked(g): a locked() call on this group's scale lock was evaluated on the path and was false", pc.String(),
 			"a call that can reach an action site (taint / untaint / cloud resize / delete) is not dominated by a false scale-lock test, so it runs inside the cool-down")
 	}
